@@ -6,6 +6,10 @@ mod common;
 mod support;
 mod gen_proxy;
 mod gen_cg;
+#[allow(dead_code)]
+#[path = "../../zv/src/idl.rs"]
+mod idltree;
+mod gen_intro;
 
 fn main() {
     std::panic::set_hook(Box::new(|_| {}));
@@ -14,6 +18,7 @@ fn main() {
     let mut out = vec![];
     match scenario.as_str() {
         "proxy" => gen_proxy::run_all(&mut out),
+        "intro" => gen_intro::run_all(&mut out),
         "cg" => {
             // stage A's observations (what the generated code declares; heck on the name list)
             for f in ["decl.txt", "case.txt"] {
